@@ -20,3 +20,9 @@ fi
 cd $VR
 VERIF_REPO=$WT VERIF_LEAN=$LN VERIF_EVIDENCE=/tmp/seed-evidence VERIF_REPLAYS=/tmp/seed-replays/$TAG ./check $PID --tier ${TIER:-quick} 2>&1 | grep -v "^KNOWN-FINDING" | tail -${TAILN:-8}
 echo "check exit: ${PIPESTATUS[0]}"
+python3 -c "
+import json
+d=json.load(open('/tmp/seed-evidence/$PID.json'))
+b=d.get('broken') or d.get('coverage',{}).get('broken') or []
+print('obligations broken:', sorted(set(x.get('what') if isinstance(x,dict) else str(x)[:30] for x in b)))
+" 2>/dev/null
